@@ -1,4 +1,6 @@
-/* LD_PRELOAD shim for C19: refuses memory locking from the K-th request on.
+/* LD_PRELOAD shim for C19 (and one pass of C15): refuses memory locking from the K-th request on; refuses ONE mprotect request.
+ * verif_mprotect_fail_at(K): K >= 1 → the K-th mprotect() after this call (and only that one) fails with ENOMEM (what the kernel
+ * answers when the process is out of mappings, vm.max_map_count).
  * verif_mlock_fail_from(K): K >= 1 → the K-th and every later mlock() after this call fails with ENOMEM;
  * K < 1 → never fail.  (root ignores RLIMIT_MEMLOCK, so the fault is injected here.) */
 #define _GNU_SOURCE
@@ -32,4 +34,23 @@ int mlock(const void *addr, size_t len) {
         return -1;
     }
     return real(addr, len);
+}
+
+static long mp_fail_at = -1;
+static long mp_count = 0;
+
+void verif_mprotect_fail_at(long k) {
+    mp_fail_at = k;
+    mp_count = 0;
+}
+
+int mprotect(void *addr, size_t len, int prot) {
+    static int (*real)(void *, size_t, int) = 0;
+    if (!real) real = (int (*)(void *, size_t, int))dlsym(RTLD_NEXT, "mprotect");
+    mp_count++;
+    if (mp_fail_at >= 1 && mp_count == mp_fail_at) {
+        errno = ENOMEM;
+        return -1;
+    }
+    return real(addr, len, prot);
 }
